@@ -73,9 +73,17 @@ type Lookup struct {
 
 // HStep is one step of a holiday history (C14).
 type HStep struct {
-	Fix    *Fix   `json:"fix,omitempty"`
-	BadKey string `json:"bad_key,omitempty"` // a malformed query whose panic is recovered
-	Why    string `json:"why,omitempty"`
+	Fix    *Fix    `json:"fix,omitempty"`         // concrete fix-up (used as is)
+	Acts   []Act   `json:"acts,omitempty"`        // abstract fix-up, resolved by the worker against the table as it is at that step
+	Extra  int     `json:"extra_names,omitempty"` // with Acts: pass a names list = names in use + this many new names
+	BadKey *string `json:"bad_key,omitempty"`     // a malformed query whose panic is recovered
+	Why    string  `json:"why,omitempty"`
+}
+
+// Act is one abstract fix-up segment.
+type Act struct {
+	Kind string `json:"kind"` // add_future add_before add_between replace_flag replace_name replace_target remove remove_absent
+	Pick uint64 `json:"pick"` // chooses the record / day / name deterministically
 }
 
 type Fix struct {
@@ -129,4 +137,5 @@ type Result struct {
 	SimSpanS    float64           `json:"sim_span_s,omitempty"`
 	Sig         string            `json:"sig,omitempty"` // distinctness signature chosen by the property runner
 	NonTrivial  bool              `json:"nontrivial"`
+	Resolved    []string          `json:"resolved,omitempty"` // concrete form of abstract steps (C14 fix strings, C10 pillars)
 }
